@@ -153,11 +153,13 @@ impl TxDependency {
             crate::verif::before_lock(&self.dependent_state[next]);
             let mut state = self.dependent_state[next].lock();
             #[cfg(grevm_verif)]
-            crate::verif::p2("dep_commit", txid as i64, state.onboard as i64);
+            let verif_onboard = state.onboard;
             if state.onboard {
                 state.dependency = None;
                 self.index.fetch_min(next, Ordering::Relaxed);
             }
+            #[cfg(grevm_verif)]
+            crate::verif::p2("dep_commit", txid as i64, verif_onboard as i64);
         }
     }
 
@@ -235,12 +237,14 @@ impl TxDependency {
             crate::verif::before_lock(&self.dependent_state[txid]);
             let mut state = self.dependent_state[txid].lock();
             #[cfg(grevm_verif)]
-            crate::verif::p3("dep_add", txid as i64, crate::verif::NONE, state.onboard as i64);
+            let verif_onboard = state.onboard;
             if !state.onboard {
                 state.onboard = true;
                 state.dependency = None;
                 self.index.fetch_min(txid, Ordering::Relaxed);
             }
+            #[cfg(grevm_verif)]
+            crate::verif::p3("dep_add", txid as i64, crate::verif::NONE, verif_onboard as i64);
         }
     }
 }
